@@ -164,6 +164,43 @@ variable {K α : Type} [DecidableEq K] [Field α] [LinearOrder α] [IsStrictOrde
     (grade : α) (gu : GradeUnit) (d : α) (du : DistanceUnit) :
     (r.predict c speed su grade gu d du).1.2 = r.rateUnit.associatedEnergyUnit := rfl
 
+/-! ### starting charge -/
+
+theorem withStartSoc_ok {b b' : Battery α} {x : α} (h : b.withStartSoc x = .ok b') :
+    (0 ≤ x ∧ x ≤ 100) ∧ b' = { b with startEnergy := Lit.lit 1 100 * x * b.capacity } := by
+  simp only [Battery.withStartSoc, zero_eq, hundred_eq] at h
+  split at h
+  · rename_i hx; cases h; exact ⟨hx, rfl⟩
+  · cases h
+
+theorem asSoc_of_start (cap x : α) (hcap : cap ≠ 0) (hx : 0 ≤ x ∧ x ≤ 100) :
+    asSocPercent (Lit.lit 1 100 * x * cap) cap = x := by
+  simp only [asSocPercent, hundred_eq, zero_eq, LawfulLit.lit_eq]
+  have e : ((1 : ℕ) : α) / ((100 : ℕ) : α) * x * cap / cap * 100 = x := by
+    push_cast; field_simp
+  rw [e]
+  exact clamp_of_mem hx.1 hx.2
+
+/-! ### cache lists -/
+
+theorem find_mem {k : K} {v : α} : ∀ {es : List (K × α)}, Cache.find k es = some v → (k, v) ∈ es
+  | [], h => by simp [Cache.find] at h
+  | (k', v') :: r, h => by
+    simp only [Cache.find] at h
+    split at h
+    · rename_i hk; cases h; subst hk; exact List.mem_cons_self
+    · exact List.mem_cons_of_mem _ (find_mem h)
+
+theorem mem_remove {k : K} {x : K × α} : ∀ {es : List (K × α)}, x ∈ Cache.remove k es → x ∈ es
+  | [], h => by simp [Cache.remove] at h
+  | (k', v') :: r, h => by
+    simp only [Cache.remove] at h
+    split at h
+    · exact List.mem_cons_of_mem _ h
+    · rcases List.mem_cons.mp h with h | h
+      · rw [h]; exact List.mem_cons_self
+      · exact List.mem_cons_of_mem _ (mem_remove h)
+
 /-! ### decomposition of the traversal -/
 
 theorem traverse_ok {eng : SpeedEngine α} {fu : FeatureUnits} {e : Edge α} {s s1 : VState α}
